@@ -257,9 +257,24 @@ func vspecCanonLayout(l Layout) string {
 
 // ---- harnesses ----------------------------------------------------------------
 
-func vhShape(tag string) int { return vChoice(tag, 3) } // 0 nil, 1 empty, 2 one element
+// collection shapes (0 nil, 1 empty, 2 populated) come from a small table of
+// profiles instead of all 3^5 combinations
+var vhShapeProfiles = [][]int{{0, 0, 0, 0, 0}, {1, 1, 1, 1, 1}, {2, 2, 2, 2, 0}, {2, 0, 1, 2, 1}, {0, 2, 2, 1, 0}, {1, 2, 0, 0, 1}}
+var vhProfile []int
+var vhShapeIdx int
+
+func vhShape(tag string) int {
+	if vhProfile == nil {
+		return vChoice(tag, 3)
+	}
+	v := vhProfile[vhShapeIdx%len(vhProfile)]
+	vhShapeIdx++
+	return v
+}
 
 func vhSymLink(nameLen int) Link {
+	vhProfile, vhShapeIdx = vhShapeProfiles[vChoice("shape-profile", len(vhShapeProfiles))], 0
+	defer func() { vhProfile = nil }()
 	l := Link{Type: "link", Name: vBytes("name", nameLen)}
 	vhASCII(l.Name)
 	switch vhShape("materials") {
@@ -445,7 +460,7 @@ func vh_C11_dsse(a []int) {
 	vObserve("setpayload", err == nil)
 	vAssert("C11.setpayload-succeeds", err == nil)
 	if err == nil {
-		raw, derr := e.envelope.DecodeB64Payload()
+		raw, derr := vhB64Decode(base64.StdEncoding, e.envelope.Payload)
 		vKnown("KF-C11-control-chars", !vspecJSONStringsOK(string(raw)))
 		vAssert("C11.dsse-payload-type", derr == nil && e.envelope.PayloadType == "application/vnd.in-toto+json")
 		vAssert("C11.dsse-payload-is-a-valid-json-document-whatever-the-strings-contain", vspecJSONStringsOK(string(raw)))
